@@ -3,10 +3,12 @@ package main
 // One blank import per property package (each registers itself in init()).
 import (
 	_ "verifh/props/c01"
+	_ "verifh/props/c02"
 	_ "verifh/props/c05"
 	_ "verifh/props/c06"
 	_ "verifh/props/c07"
 	_ "verifh/props/c08"
+	_ "verifh/props/c11"
 	_ "verifh/props/c12"
 	_ "verifh/props/c13"
 	_ "verifh/props/c19"
